@@ -1180,7 +1180,7 @@ func (la *lockAnalysis) acquiresOf(f *ssa.Function, seen map[*ssa.Function]bool)
 		if ci.Common().IsInvoke() && isChainIface(la.p, ci.Common().Value.Type()) {
 			return // the downstream writer / upstream reader is another object; holding a private lock across it is noted, not armed (DESIGN §3 C5)
 		}
-		for _, c := range la.p.Callees(ci) {
+		for _, c := range la.p.CalleesU(ci) {
 			if !la.p.InUniverse(c) {
 				continue
 			}
@@ -1452,6 +1452,9 @@ func runC5Wait(p *Prog, o *obls, la *lockAnalysis) {
 					ls := lockset{}
 					for k, v := range held {
 						if la.info[fn].deferU[k] && deferredBefore(fn, d, k) {
+							ls[k] = v
+						} else if la.entry[fn][k] > 0 && !la.info[fn].deferU[k] {
+							// held by the caller for the whole call, deferred calls included
 							ls[k] = v
 						}
 					}
